@@ -1,12 +1,17 @@
 #!/usr/bin/env python3
-# translate_csv.py <out_dir>  - fail-closed translator from $VERIF_REPO/rbql-py/rbql/csv_utils.py (Python `ast`) to Gallina
-# definitions over coq/theories/PyStr.v (Python-level primitives defined over Base.v).  Writes <out_dir>/GenCsv.v
-# (definitions gen_py_<name>, then the committed obligations / corollaries of harness/gen_csv_tie.v.tmpl) and
-# <out_dir>/GenCsv.json (names, sizes, what was skipped).  Exit 0: files written; exit 2: translation refused (the message
-# names file:line and the construct).  python3 stdlib only.  Nothing is cached: the source is re-read on every run.
+# translate_csv.py <out_dir> [py|js]  - fail-closed translator from $VERIF_REPO/rbql-py/rbql/csv_utils.py (Python `ast`) and from
+# $VERIF_REPO/rbql-js/csv_utils.js (harness/jsparse_csv.py, same node classes) to Gallina definitions over
+# coq/theories/PyStr.v / JsStr.v (language-level primitives defined over Base.v).  Writes <out_dir>/GenCsv.v (definitions
+# gen_py_<name>, then the committed obligations / corollaries of harness/gen_csv_tie.v.tmpl) or GenCsvJs.v (gen_js_<name>,
+# gen_csv_tie_js.v.tmpl), and the matching .json (names, sizes, what was skipped).  Exit 0: files written; exit 2: translation
+# refused (the message names file:line and the construct).  python3 stdlib only.  Nothing is cached.
+# translate_csv.py --print <prefix> [py|js] prints the definitions under another prefix (this is how CsvIx.v / CsvIxJs.v were made).
 #
-# WHAT IS TRANSLATED: the functions COVERED below (those the hand model Csv.v covers) and every module-level function
-# they call.  Other functions of the file (extract_line_from_data, unquote_field(s)) are listed as skipped.
+# WHAT IS TRANSLATED: the functions COVERED below (those the hand model Csv.v covers) and every HELPER they call (a
+# module-level function outside SIGS: translated at its first call site with the argument types found there, and unfolded
+# in the obligations).  Other functions of the file (extract_line_from_data, unquote_field(s), split_lines, the class
+# MultilineRecordAggregator) are listed as skipped.  A top-level name whose value is outside the rules is refused only
+# where a translated function uses it.
 #
 # THE RULES (every construct outside them => refused)
 #   values      int -> Z;  str -> str (list of code points; a literal is spelled [34%N; ..]);  bool -> bool;  list of str ->
@@ -93,6 +98,8 @@ JS_SRC_REL = 'rbql-js/csv_utils.js'
 RX_TABLE_JS = {
     ('^' + FIELD_RX, ''): ('RxField', {'exec'}),
     ('^ *' + FIELD_RX + ' *', ''): ('RxFieldExt', {'exec'}),
+    (FIELD_RX, 'y'): ('RxField', {'exec_sticky'}),                  # sticky: rgx.lastIndex = pos; rgx.exec(s) -> re_match rgx s pos
+    (' *' + FIELD_RX + ' *', 'y'): ('RxFieldExt', {'exec_sticky'}),
     ('[^ ]+', 'g'): ('RxWs', {'exec_all'}),
     (' *[^ ]+ *', 'g'): ('RxWsPreserve', {'exec_all'}),
 }
@@ -203,7 +210,8 @@ class E:
 
 
 class Var:
-    def __init__(self, ty, coq, known=None, rxs=None, const=None):
+    def __init__(self, ty, coq, known=None, rxs=None, const=None, lastindex=None):
+        self.lastindex = lastindex    # a sticky pattern whose lastIndex was just assigned: the position (text)
         self.ty = ty
         self.coq = coq
         self.known = known        # for optmatch: None / 'some' / 'none'
@@ -246,6 +254,8 @@ class Module:
         self.rx = {}              # name -> pattern text
         self.funcs = {}           # name -> ast.FunctionDef
         self.order = []
+        self.opaque = {}          # top-level names whose value is outside the rules -> line (refused only where a translated function uses them)
+        self.emitted = []         # translated functions in order of completion
         for st in tree.body:
             if isinstance(st, (ast.Import, ast.ImportFrom)):
                 continue
@@ -259,7 +269,7 @@ class Module:
                 continue
             if isinstance(st, ast.Assign) and len(st.targets) == 1 and isinstance(st.targets[0], ast.Name):
                 name = st.targets[0].id
-                if name in self.consts or name in self.rx:
+                if name in self.consts or name in self.rx or name in self.opaque:
                     refuse(st, 'module constant %s assigned twice' % name)
                 txt = self.const_text(st.value)
                 if txt is not None:
@@ -269,7 +279,18 @@ class Module:
                 if pat is not None:
                     self.rx[name] = pat
                     continue
+                self.opaque[name] = st.lineno
+                continue
+            if isinstance(st, ast.ClassDef):
+                self.opaque[st.name] = st.lineno
+                continue
             refuse(st, 'module-level statement outside the rules: %s' % ast.dump(st)[:120])
+        self.check_names()
+
+    def check_names(self):
+        for name in list(self.consts) + list(self.rx) + list(self.opaque):
+            if name in self.funcs:
+                raise Refuse('%s: the name %s is both a function and a top-level variable' % (LANG.src_rel, name))
 
     @classmethod
     def from_js(cls, consts, funcs, order):
@@ -278,7 +299,7 @@ class Module:
         self.order = list(order)
         for name, e, line in consts:
             e.lineno = line
-            if name in self.consts or name in self.rx:
+            if name in self.consts or name in self.rx or name in self.opaque:
                 refuse(e, 'module constant %s assigned twice' % name)
             txt = self.const_text(e)
             if txt is not None:
@@ -288,7 +309,8 @@ class Module:
             if pat is not None:
                 self.rx[name] = pat
                 continue
-            refuse(e, 'top-level constant %s is outside the rules' % name)
+            self.opaque[name] = line
+        self.check_names()
         return self
 
     def const_text(self, node):
@@ -356,6 +378,8 @@ class FnInfo:
         self.ret = None
         self.text = None
         self.size = 0
+        self.busy = False
+        self.helper = False
 
 
 # ------------------------------------------------------------------ function translation
@@ -400,14 +424,16 @@ class FnTr:
             return E(lit_str(self.mod.consts[node.id]), 'str')
         if node.id in self.mod.rx:
             return self.rx_of_text(node, self.mod.rx[node.id])
+        if node.id in self.mod.opaque:
+            refuse(node, 'the top-level name %s (line %s) has a value outside the rules' % (node.id, self.mod.opaque[node.id]))
         refuse(node, 'name %s is not bound here' % node.id)
 
     def rx_of_text(self, node, text):
         table = RX_TABLE_JS if LANG.js else RX_TABLE
         if text not in table:
             refuse(node, 'regular expression with an unknown pattern text %r (the table of hand-written scanners is keyed on the exact text)' % (text,))
-        c = table[text][0]
-        return E(c, 'rx', rxs={c})
+        c, methods = table[text]
+        return E(c, 'rx', rxs={(c, frozenset(methods))})
 
     def recv(self, node, env):
         """an expression in receiver position (len, index, slice, iteration): a mutated list may stand here"""
@@ -739,8 +765,8 @@ class FnTr:
         refuse(node, 'iteration over a %s is outside the rules' % show_type(e.ty))
 
     def rx_call(self, node, r, method, env):
-        for c in sorted(r.rxs):
-            if method not in (RX_ALLOWED_JS if LANG.js else RX_ALLOWED)[c]:
+        for c, methods in sorted(r.rxs, key=lambda x: x[0]):
+            if method not in methods:
                 refuse(node, 'regular expression method %s on pattern %s has no hand-written scanner' % (method, c))
         if method == 'exec':
             if len(node.args) != 1 or node.keywords:
@@ -782,9 +808,7 @@ class FnTr:
                     refuse(node, 'new RegExp with a non-constant argument')
                 return self.rx_of_text(node, pat)
             if f.id in self.mod.funcs and f.id not in env:
-                info = self.infos.get(f.id)
-                if info is None or info.text is None:
-                    refuse(node, 'call of %s before its translation (recursion is outside the rules)' % f.id)
+                info = self.callee(node, env)
                 if info.partial or info.mutated:
                     refuse(node, 'call of %s (partial or mutating) must be a statement of its own' % f.id)
                 args = self.call_args(node, info, env)
@@ -850,6 +874,17 @@ class FnTr:
 
     def js_method(self, node, f, x, env):
         if x.ty == 'rx' and f.attr == 'exec':
+            if all('exec_sticky' in methods for _c, methods in x.rxs):
+                # a sticky pattern: the match is anchored at lastIndex, which must have been assigned by the statement before
+                if not (isinstance(f.value, ast.Name) and f.value.id in env and env[f.value.id].lastindex is not None):
+                    refuse(node, 'exec of a sticky pattern whose lastIndex is not known here')
+                if len(node.args) != 1:
+                    refuse(node, 'rgx.exec with unexpected arguments')
+                s_ = self.expr(node.args[0], env)
+                if s_.ty != 'str':
+                    refuse(node, 'rgx.exec argument type')
+                self.consumed[-1].append(f.value.id)
+                return E('(re_match %s %s %s)' % (x.text, s_.text, env[f.value.id].lastindex), 'optmatch')
             return E(self.rx_call(node, x, 'exec', env), 'optmatch')
         if x.ty != 'str':
             return None
@@ -877,6 +912,40 @@ class FnTr:
         if f.attr == 'split' and tys == ['str']:
             return E('(py_split %s %s)' % (x.text, args[0].text), new_list('str'))
         return None
+
+    def callee(self, node, env):
+        """the translated callee of f(..); a HELPER (a function outside SIGS) is translated here, on its first call, with the
+        parameter types of this call site (every later call must fit them)"""
+        name = node.func.id
+        info = self.infos.get(name)
+        if info is None:
+            refuse(node, 'call of %s, which is not part of the call graph of the covered functions' % name)
+        if info.text is not None:
+            return info
+        if info.params is not None or info.busy:
+            refuse(node, 'call of %s before its translation (recursion is outside the rules)' % name)
+        a = info.node.args
+        if a.defaults or a.vararg or a.kwarg or a.kwonlyargs or a.posonlyargs or len(node.args) != len(a.args) or node.keywords:
+            refuse(node, 'helper %s: defaults / variadic parameters / a different number of arguments are outside the rules' % name)
+        params = []
+        for i, (arg, actual) in enumerate(zip(a.args, node.args)):
+            if i in info.mutated:
+                if not (isinstance(actual, ast.Name) and actual.id in env):
+                    refuse(node, 'argument %d of %s is mutated by it: a plain local name is required' % (i, name))
+                ty = env[actual.id].ty
+            else:
+                ty = self.expr(actual, env).ty
+            if ty == 'g0':
+                ty = 'str'
+            if not (ty in ('int', 'str', 'bool') or (is_list(ty) and ty[1][0] == 'str')):
+                refuse(node, 'helper %s: a parameter of type %s is outside the rules' % (name, show_type(ty)))
+            params.append((arg.arg, ty, None))
+        info.params = params
+        info.busy = True
+        info.helper = True
+        FnTr(self.mod, self.infos, info).run()
+        info.busy = False
+        return info
 
     def call_args(self, node, info, env, allow_mut=False):
         if len(node.args) > len(info.params):
@@ -912,7 +981,20 @@ class FnTr:
         m = getattr(self, 's_' + type(st).__name__, None)
         if m is None:
             refuse(st, 'statement form %s is outside the rules' % type(st).__name__)
-        return m(st, env, lambda e2: self.block(rest, e2, k))
+        used = []                      # sticky patterns whose lastIndex this statement's own expressions consume
+
+        def k2(e2):
+            if used:
+                e2 = dict(e2)
+                for n in used:
+                    if n in e2:
+                        e2[n] = Var(e2[n].ty, e2[n].coq, rxs=e2[n].rxs)
+            return self.block(rest, e2, k)
+        self.consumed.append(used)
+        try:
+            return m(st, env, k2)
+        finally:
+            self.consumed.pop()
 
     def hoist(self, st, env):
         """a call of a PARTIAL translated function nested inside the expression of a simple statement is bound first:
@@ -989,9 +1071,7 @@ class FnTr:
 
     def bind_call(self, st, targets, target_types_check, call, env, k):
         """targets: list of python names receiving the (components of the) result, or [] to drop it"""
-        info = self.infos.get(call.func.id)
-        if info is None or info.text is None:
-            refuse(st, 'call of %s before its translation (recursion is outside the rules)' % call.func.id)
+        info = self.callee(call, env)
         if call.keywords:
             refuse(st, 'keyword arguments are outside the rules')
         args = self.call_args(call, info, env, allow_mut=True)
@@ -1065,6 +1145,18 @@ class FnTr:
         if len(st.targets) != 1:
             refuse(st, 'multiple assignment targets')
         tg = st.targets[0]
+        # rgx.lastIndex = pos  (a sticky pattern held in a local name)
+        if LANG.js and isinstance(tg, ast.Attribute):
+            if not (tg.attr == 'lastIndex' and isinstance(tg.value, ast.Name) and tg.value.id in env and env[tg.value.id].ty == 'rx'
+                    and all('exec_sticky' in methods for _c, methods in env[tg.value.id].rxs)):
+                refuse(st, 'attribute assignment other than <sticky pattern>.lastIndex = position')
+            pos = self.expr(st.value, env)
+            if pos.ty != 'int':
+                refuse(st, 'lastIndex of type %s' % show_type(pos.ty))
+            v = env[tg.value.id]
+            env2 = dict(env)
+            env2[tg.value.id] = Var(v.ty, v.coq, rxs=v.rxs, lastindex=pos.text)
+            return k(env2)
         # l[i] = e   /   l[:k] = e
         if isinstance(tg, ast.Subscript):
             if not (isinstance(tg.value, ast.Name) and tg.value.id in env and is_list(env[tg.value.id].ty) and env[tg.value.id].ty[1][0] == 'str'):
@@ -1328,10 +1420,12 @@ class FnTr:
         self.loop_depth = 0
         self.n_while = 0
         self.n_hoist = 0
+        self.consumed = [[]]
         body = self.block(node.body, env, lambda e2: refuse(node, 'a path through %s ends without return' % info.name))
         ps = ' '.join('(%s : %s)' % (coq_name(pn), coq_type(pt)) for pn, pt, pd in info.params)
         info.text = 'Definition %s%s %s :=\n%s.' % (LANG.prefix, info.name, ps, indent(body))
         info.size = self.nodes
+        self.mod.emitted.append(info.name)
 
 
 def indent(text):
@@ -1399,13 +1493,6 @@ def analyse(mod, names):
     return todo, infos
 
 
-def helper_params(mod, infos, name):
-    """parameter types of a helper (a function outside SIGS) from the annotations-free source: every call site must agree;
-    the types are found by translating the caller up to the call, which is done lazily: here only str / bool / int constants
-    and parameters of covered callers are resolved"""
-    raise Refuse('%s: the helper function %s is called by a covered function: helpers are outside the rules (no signature is known for it)' % (LANG.src_rel, name))
-
-
 def translate(path):
     text = open(path, encoding='utf-8').read()
     if LANG.js:
@@ -1422,7 +1509,7 @@ def translate(path):
     for n in todo:
         info = infos[n]
         if info.params is None:
-            helper_params(mod, infos, n)
+            continue                  # a helper: translated at its first call site (FnTr.callee)
         FnTr(mod, infos, info).run()
         if n in RESULT:
             if not same_type(freeze_type(info.ret), freeze_type(RESULT[n])):
@@ -1432,8 +1519,11 @@ def translate(path):
                              % (LANG.src_rel, n, 'became partial' if info.partial else 'is no longer partial'))
             if [info.params[i][0] for i in info.mutated] != EXPECT_MUTATED.get(n, []):
                 raise Refuse('%s: the set of parameters that %s mutates changed' % (LANG.src_rel, n))
+    for n in todo:
+        if infos[n].text is None:
+            raise Refuse('%s: the helper %s was never reached' % (LANG.src_rel, n))
     skipped = [n for n in mod.order if n not in todo]
-    return mod, todo, infos, skipped
+    return mod, list(mod.emitted), infos, skipped
 
 
 def main():
@@ -1452,7 +1542,7 @@ def main():
     except SyntaxError as e:
         sys.stderr.write('translate_csv: REFUSED: %s does not parse: %s\n' % (LANG.src_rel, e))
         return 2
-    defs = '\n\n'.join(infos[n].text for n in todo)
+    defs = '\n\n'.join(infos[n].text + ('\n#[local] Hint Unfold %s%s : genhelpers.' % (LANG.prefix, n) if infos[n].helper else '') for n in todo)
     if args[0] == '--print':
         sys.stdout.write(defs.replace(LANG.prefix, args[1]) + '\n')
         return 0
